@@ -261,7 +261,7 @@ type c03Client struct {
 func (c *c03Client) readReply() (c03Reply, error) {
 	var rep c03Reply
 	for {
-		c.conn.SetReadDeadline(time.Now().Add(8 * time.Second))
+		c.conn.SetReadDeadline(time.Now().Add(20 * time.Second))
 		line, err := c.r.ReadString('\n')
 		if err != nil {
 			return rep, err
@@ -295,7 +295,7 @@ func (c *c03Client) readReply() (c03Reply, error) {
 
 func (c *c03Client) send(s string) error {
 	c.log = append(c.log, "C: "+strings.TrimRight(s, "\r\n"))
-	c.conn.SetWriteDeadline(time.Now().Add(8 * time.Second))
+	c.conn.SetWriteDeadline(time.Now().Add(20 * time.Second))
 	_, err := c.conn.Write([]byte(s))
 	return err
 }
@@ -593,7 +593,7 @@ func c03Run(sc c03Scenario) (vs []ev.V) {
 	}
 	res := c03Play(sc, addr, rec)
 	// wait for the session to end on the server side
-	deadline := time.Now().Add(8 * time.Second)
+	deadline := time.Now().Add(20 * time.Second)
 	for endp.ConnectionCount() != 0 && time.Now().Before(deadline) {
 		time.Sleep(200 * time.Microsecond)
 	}
@@ -602,7 +602,7 @@ func c03Run(sc c03Scenario) (vs []ev.V) {
 	c03Last = res
 	if res.HarnessErr != "" && (strings.Contains(res.HarnessErr, "timeout") || strings.Contains(res.HarnessErr, "deadline")) {
 		// a server that stops answering; reported separately so that it is not mistaken for a protocol result
-		return []ev.V{ev.Vf("session:no-reply", "the server did not answer within 8 s: %s\n%s", res.HarnessErr, strings.Join(res.Log, "\n"))}
+		return []ev.V{ev.Vf("session:no-reply", "the server did not answer within 20 s: %s\n%s", res.HarnessErr, strings.Join(res.Log, "\n"))}
 	}
 	// any other I/O error means the server closed the connection (e.g. after too many bad commands
 	// when the client's BDAT data was not consumed); the dialogue simply ends there
@@ -628,7 +628,7 @@ func c03Run(sc c03Scenario) (vs []ev.V) {
 		if nEhlo > 1 && shape == "other" {
 			shape = "repeated-EHLO"
 		}
-		return []ev.V{ev.Vf("session:not-ended:"+shape, "the server-side session did not end (connection count %d) within 8 s after the client left\n%s\n--- goroutines:\n%.3000s", endp.ConnectionCount(), strings.Join(res.Log, "\n"), strings.Join(stuck, "\n\n"))}
+		return []ev.V{ev.Vf("session:not-ended:"+shape, "the server-side session did not end (connection count %d) within 20 s after the client left\n%s\n--- goroutines:\n%.3000s", endp.ConnectionCount(), strings.Join(res.Log, "\n"), strings.Join(stuck, "\n\n"))}
 	}
 	dialog := strings.Join(res.Log, "\n")
 	events := rec.Snapshot()
